@@ -1,5 +1,7 @@
 package main
 
+import "golang.org/x/tools/go/ssa"
+
 const (
 	tK  = "x/tss/keeper.Keeper."
 	tMS = "x/tss/keeper.msgServer."
@@ -75,6 +77,9 @@ func c05(r *Report) propMeta {
 	r.Rule("C05.R6", "store-key agreement: every point read/delete addresses a written key family")
 	r.StoreKeyAgreement("store-keys", "tss", 35, nil)
 
+	r.Rule("C05.R8", "E8 genesis import keeps the registered order of a member's queue")
+	r.Lint("genesis-order", []*ssa.Function{r.W.Fn("x/tss/keeper.Keeper.InitGenesis")}, nil, 1)
+
 	r.Rule("C05.R7", "E15 wire fields validated by their own type")
 	r.WireFieldsValidated("wire", "x/tss/types", []string{"MsgSubmitDEs"}, 2)
 
@@ -87,6 +92,7 @@ func c05(r *Report) propMeta {
 			"R5 ResetDE zeroes the queue only after the delete loop over [Head,Tail) completed",
 			"R6 every KV-store Get/Has/Delete of x/tss uses a key builder of x/tss/types that some Set of the module also uses (a probe of an iteration prefix or of a sibling family is always-empty state)",
 			"R7 both points of every submitted DE reach tss.Point.Validate from MsgSubmitDEs.ValidateBasic",
+			"R8 tss InitGenesis rebuilds each member's queue from GenesisState.DEs in list order: no unstable sort (or any other lint hit) in the import path (seed C05-6 sorted the flat list with sort.Slice, which permutes one member's pairs for lists longer than 12)",
 		},
 		Undecided: []string{"that the daemon never re-registers the same (D,E) pair (randomness)", "FIFO order as a history property beyond R2's head arithmetic"},
 		Assume:    []string{"CacheContext isolates writes until writeFn is called", "msg handlers are atomic (baseapp runTx)", "VTA resolves the bandtss/tss keeper interfaces and callback router"},
